@@ -21,6 +21,7 @@ type FuncResult struct {
 
 func (fc *FnCtx) entryState() (*State, map[string]Term) {
 	st := &State{locals: map[*ssa.Alloc]Term{}, heap: map[string]Term{}, live: tBool(true)}
+	fc.declareKnownSorts()
 	fc.emit("(declare-const nid0 Int)")
 	fc.emit("(assert (>= nid0 0))")
 	st.nextID = mk("nid0", SInt, nil)
@@ -188,6 +189,9 @@ func (fc *FnCtx) checkFrame(st *State, spec *FuncSpec) {
 		ds[d] = true
 	}
 	for _, c := range inferred {
+		if strings.HasPrefix(c, "~") || strings.HasPrefix(c, "FX_") {
+			continue // writes to memory allocated by the function itself are always within the frame
+		}
 		if !ds[c] {
 			ok = false
 			extra = append(extra, c)
